@@ -177,6 +177,7 @@ class StubSolver:
         self.env = None
 
     def Solve(self, model, *a, **k):
+        StubSolver.last = self
         self.env, status = StubSolver.ctx.on_solve(model)
         return status
 
@@ -315,12 +316,14 @@ def _stub_harness(eng, sp, ORToolsSolver, NoSolutionFoundError):
     ctx.desc = desc
     solver = ORToolsSolver()
     if sp["reuse"]:
-        # an earlier solve() of a different instance on the same solver object
+        # an earlier solve() of a different instance on the same solver object, under a time limit that is lifted afterwards
         from job_shop_lib import JobShopInstance, Operation
 
         prior = JobShopInstance([[Operation(0, 1), Operation(1, 2)], [Operation(1, 1)], [Operation(0, 3)]], name="prior")
         ctx.check = False
+        solver.max_time_in_seconds = 7.0
         solver(prior)
+        solver.max_time_in_seconds = None
         ctx.check = True
     want_error = sp["status"] not in ("optimal", "feasible")
     try:
@@ -347,6 +350,7 @@ def _stub_harness(eng, sp, ORToolsSolver, NoSolutionFoundError):
     eng.reachable("transition")
     # layer 3: the model recorded on the reused solver equals the one a fresh solver records
     if sp["reuse"]:
+        reused_params = StubSolver.last.parameters
         ctx2 = Ctx(eng, sp)
         ctx2.desc, ctx2.check = desc, False
         StubSolver.ctx = ctx2
@@ -359,6 +363,9 @@ def _stub_harness(eng, sp, ORToolsSolver, NoSolutionFoundError):
         StubSolver.ctx = ctx
         if ctx.models[-1].log != ctx2.models[-1].log:
             eng.fail("C03/reused-solver-records-a-different-model", f"{ctx.models[-1].log} vs {ctx2.models[-1].log}")
+        if vars(reused_params) != vars(StubSolver.last.parameters):
+            eng.fail("C03/reused-solver-runs-with-parameters-of-an-earlier-solve",
+                     f"{vars(reused_params)} vs fresh {vars(StubSolver.last.parameters)}")
     check_schedule(eng, desc, inst, sched, sp["status"], all_histories(desc) if sp["status"] == "optimal" else None)
 
 
